@@ -574,6 +574,10 @@ class Engine(Interp):
                 # calling a function item through the Fn* traits is calling that function
                 rest = list(args[1][1]) if len(args) > 1 and args[1][0] == 'tuple' else list(args[1:])
                 return self.call_fn_value(st, f, rest, fid, t, dest_ty)
+            if f[0] == 'closure' and f[1] in self.facts.bodies:
+                # a generic callable that is, in this inlining context, a closure of the crate: run its body
+                rest = list(args[1][1]) if len(args) > 1 and args[1][0] == 'tuple' else list(args[1:])
+                return self.call_at(st, self.closure_cell(st, args[0]), rest, fid)
         if callee['resolved'] == 'unresolved':
             r = self.dispatch_by_value(st, fid, t, args, dest_ty)
             if r is not None:
